@@ -17,7 +17,6 @@ use crate::{
   obs::Obs,
   record::{record, Ev},
   rng::Rng,
-  spec::build_box,
 };
 
 pub fn def() -> PropDef {
@@ -53,7 +52,7 @@ fn gen(rng: &mut Rng, tier: Tier) -> Value {
     Tier::Thorough => rng.range(1, 5),
   };
   let cfg = GenCfg::hostile(depth);
-  json!({ "spec": gen_case(rng, &cfg) })
+  json!({ "spec": gen_case(rng, &cfg), "share_instances": rng.chance(1, 2) })
 }
 
 fn check(case: &Value, obs: &mut Obs) {
@@ -78,7 +77,7 @@ fn check(case: &Value, obs: &mut Obs) {
   } else {
     obs.class("source_tree");
     let spec = super::spec_of(case);
-    let src = build_box(&spec);
+    let src = super::build_under_test(case, &spec, obs);
     for round in 0..2 {
       for columns in [true, false] {
         for final_source in [false, true] {
@@ -140,7 +139,7 @@ fn gen_miri(rng: &mut Rng, _tier: Tier) -> Value {
   cfg.max_text = 10;
   cfg.max_width = 3;
   cfg.max_ops = 3;
-  json!({ "spec": gen_case(rng, &cfg) })
+  json!({ "spec": gen_case(rng, &cfg), "share_instances": rng.chance(1, 2) })
 }
 
 fn check_miri(case: &Value, obs: &mut Obs) {
@@ -196,7 +195,7 @@ fn check_miri(case: &Value, obs: &mut Obs) {
   } else {
     obs.class("source_tree");
     let spec = super::spec_of(case);
-    let src = build_box(&spec);
+    let src = super::build_under_test(case, &spec, obs);
     for columns in [true, false] {
       for final_source in [false, true] {
         let rec = record(&src, &map_options(columns, final_source));
